@@ -1,5 +1,5 @@
 """C04 - Thrift in-place edits change exactly the addressed element (DESIGN.md 3/C04)."""
-import json, os
+import hashlib, json, os
 import vlib
 
 ASSUME = [
@@ -13,38 +13,38 @@ RULE = ("cases = every distinct edit history (initial document, op list) reachab
         "Value replica and a name-addressed Value replica; every step's flags and resulting bytes are judged by TLC (Trace_ThriftEdit)")
 
 
-def cases_from(mc, seen):
-    out = []
-    for r in mc["records"]:
-        if r.get("tag") != "case":
-            continue
-        key = json.dumps([r["t"], r["b"], r["ops"]], sort_keys=True)
-        if key in seen:
-            continue
-        seen.add(key)
-        out.append(dict(t=r["t"], b=r["b"], ops=r["ops"]))
-    return out
-
-
 def run(R):
     q = R.tier == "quick"
     seen = set()
-    cases = []
-    for cfg in (["q1", "q2"] if q else ["t1", "t2", "t3"]):
-        mc = R.model_check("MC_ThriftEdit", "MC_ThriftEdit_%s.cfg" % cfg, timeout=3000, workers=8, name="MC_ThriftEdit_" + cfg)
-        cases += cases_from(mc, seen)
-        mc["records"] = None
-    # thorough: TLC visits millions of histories; all of them are model-checked, a seeded sample of at most 250 000 is replayed
-    total_hist = len(cases)
-    if len(cases) > 250000:
-        k = (len(cases) + 249999) // 250000
-        cases = cases[R.seed % k::k]
-    R.extra_cov["tlc_histories_model_checked"] = total_hist
     cf = os.path.join(R.scratch, "c04-cases.ndjson")
+    total, kept, sample = [0], [0], []
+    # the histories go straight from TLC's output to the case file.  Quick: all of them.  Thorough: TLC visits millions
+    # (all model-checked); of the two big configurations every history whose digest falls into the seed's class
+    # (1 in 14, about 250 000) is replayed.
     with open(cf, "w") as f:
-        for c in cases:
-            f.write(json.dumps(c) + "\n")
-    R.samples.append(dict(kind="tlc-history", **cases[len(cases) // 3]))
+        for cfg in (["q1", "q2"] if q else ["t1", "t2", "t3"]):
+            k = 1 if q or cfg == "t1" else 14
+
+            def sink(r):
+                if r.get("tag") != "case":
+                    return
+                dg = hashlib.sha1(json.dumps([r["t"], r["b"], r["ops"]], sort_keys=True).encode()).digest()
+                if dg in seen:
+                    return
+                seen.add(dg)
+                total[0] += 1
+                if k > 1 and int.from_bytes(dg[:4], "big") % k != R.seed % k:
+                    return
+                c = dict(t=r["t"], b=r["b"], ops=r["ops"])
+                f.write(json.dumps(c) + "\n")
+                kept[0] += 1
+                if len(sample) < 3:
+                    sample.append(c)
+            R.model_check("MC_ThriftEdit", "MC_ThriftEdit_%s.cfg" % cfg, timeout=3000, workers=8, name="MC_ThriftEdit_" + cfg, sink=sink)
+    seen.clear()
+    R.extra_cov["tlc_histories_model_checked"] = total[0]
+    cases = sample
+    R.samples.append(dict(kind="tlc-history", **cases[-1]))
     tr1 = os.path.join(R.scratch, "c04-a.ndjson")
     R.drive("c04", "out=" + tr1, "cases=" + cf, timeout=6000)
     R.validate("Trace_ThriftEdit", tr1, timeout=3000)
@@ -56,7 +56,7 @@ def run(R):
             if i in (0, 1):
                 R.samples.append(json.loads(ln) if len(ln) < 3000 else ln[:3000])
     R.validate("Trace_ThriftEdit", tr2, timeout=3000)
-    R.extra_cov["tlc_histories_replayed"] = len(cases)
+    R.extra_cov["tlc_histories_replayed"] = kept[0]
     return vlib.finish(R, "model_checking", RULE, ASSUME)
 
 
